@@ -3,6 +3,7 @@ let props : (string * (module Frame.PROP)) list = [
   ("C09", (module C09));
   ("C10", (module C10));
   ("C11", (module C11));
+  ("C12", (module C12));
   ("C13", (module C13));
   ("C14", (module C14));
   ("C15", (module C15));
